@@ -424,6 +424,44 @@ def run_approx(values, ctx, only=None):
     batch.run(rec, {'family': 'approx', 'values': list(values)})
 
 
+MIXED_VALUES = (1, 3, 'apple', 'kiwi')
+MIXED_KEYS = (2, 3, 9, 'b', 'kiwi', 'zz', 'Apple')
+
+
+def mixed_columns(maxlen):
+    out = []
+    for n in range(2, maxlen + 1):
+        for idx in itertools.combinations_with_replacement(
+                range(len(MIXED_VALUES)), n):
+            col = tuple(MIXED_VALUES[i] for i in idx)
+            if any(ref.is_number(v) for v in col) and \
+                    any(not ref.is_number(v) for v in col):
+                out.append(col)
+    return out
+
+
+def run_approx_mixed(values, ctx, only=None):
+    """Ascending columns that hold numbers and then texts."""
+    rec = Rec(ctx, only)
+    n = len(values)
+    batch = Batch(column_cells(values, 'A'))
+    base = 'C15/approx-mixed/%s' % colkey(values)
+    for k in MIXED_KEYS:
+        try:
+            want = ref.match_approx_mixed(list(values), k)
+        except ref.Unjudged as u:
+            rec.skip('%s/key=%s' % (base, vkey(k)), u.args[0])
+            continue
+        for form, suffix in (('type1', ',1'), ('omitted', '')):
+            batch.add('%s/key=%s/%s' % (base, vkey(k), form),
+                      '=MATCH(%s,%s%s)' % (lit(k), rng('A', n), suffix),
+                      {'fn:MATCH', 'match:approx', 'column:numbers-then-texts',
+                       'type:' + form,
+                       'key:number' if ref.is_number(k) else 'key:text'},
+                      want, True)
+    batch.run(rec, {'family': 'approx-mixed', 'values': list(values)})
+
+
 # ---------------------------------------------------------------- family D
 def vl_table(keys, width):
     rows = []
@@ -549,6 +587,11 @@ def plan(tier):
         for lo in range(0, total, 64):
             shards.append({'fam': 'block', 'bi': bi, 'lo': lo,
                            'hi': min(total, lo + 64)})
+    nmix = len(mixed_columns(5 if thorough else 4))
+    for lo in range(0, nmix, 10):
+        shards.append({'fam': 'approx-mixed',
+                       'maxlen': 5 if thorough else 4, 'lo': lo,
+                       'hi': min(nmix, lo + 10)})
     asc = len(ascending_columns(6 if thorough else 5))
     for lo in range(0, asc, 12):
         shards.append({'fam': 'approx', 'maxlen': 6 if thorough else 5,
@@ -594,6 +637,9 @@ def run_shard(shard, ctx):
         if shard['lo'] == 0:
             ctx.sample({'family': 'block', 'shape': [nr, nc],
                         'formula': '=COUNTIFS(A1:B2,">1",E1:F2,"B")'})
+    elif fam == 'approx-mixed':
+        for values in mixed_columns(shard['maxlen'])[shard['lo']:shard['hi']]:
+            run_approx_mixed(values, ctx)
     elif fam == 'approx':
         cols = ascending_columns(shard['maxlen'])
         for values in cols[shard['lo']:shard['hi']]:
@@ -617,6 +663,8 @@ def replay(inputs, ctx):
         run_column(tuple(inputs['values']), ctx, only)
     elif fam in ('column-frac', 'column-digit', 'column-words'):
         run_column2(fam, tuple(inputs['values']), ctx, only)
+    elif fam == 'approx-mixed':
+        run_approx_mixed(tuple(inputs['values']), ctx, only)
     elif fam == 'block':
         run_block(inputs['bi'], tuple(inputs['a']), tuple(inputs['b']), ctx,
                   only)
